@@ -13,7 +13,8 @@ fn handle_count(ctx: &Context) -> usize {
     }
 }
 
-const DEEP_CALLS: [&str; 32] = [
+const DEEP_CALLS: [&str; 34] = [
+    "printenv", "print_env",
     // (an invalid mode makes chmod itself report an error in the middle of the body)
     "glob_chmod abc @D@/*.txt", "chmod_glob abc @D@/*.nomatch",
     "map_contains_value ${hk} nosuch", "map_contains_value ${hk} v", "map_contains_value ${map} nosuch", "map_contains_key ${hk} ${arr}", "map_contains_key ${hk} zz",
@@ -59,7 +60,7 @@ fn handle_table(ctx: &Context) -> BTreeMap<String, Value> {
 /// the deep scenario restricted to the script-implemented collection commands (used for C12)
 pub fn gen_deep_collections(r: &mut Rng) -> Value {
     let n = 1 + r.below(4);
-    let seq: Vec<String> = (0..n).map(|_| DEEP_CALLS[2 + r.below(14)].to_string()).collect();
+    let seq: Vec<String> = (0..n).map(|_| DEEP_CALLS[4 + r.below(14)].to_string()).collect();
     json!({"deep": true, "calls": seq, "with_out": r.chance(3, 4)})
 }
 
@@ -142,7 +143,8 @@ fn run_deep(input: &Value) -> Option<Value> {
         let before: BTreeMap<String, String> = context.variables.iter().map(|(k, v)| (k.clone(), v.clone())).collect();
         let t_before = handle_table(&context);
         let script = if with_out { format!("out = {}", call) } else { call.clone() };
-        context = match runner::run_script(&script, context, None) {
+        let quiet = duckscript::types::env::Env::new(Some(Box::new(std::io::sink())), Some(Box::new(std::io::sink())), None);
+        context = match runner::run_script(&script, context, Some(quiet)) {
             Ok(c) => c,
             Err(e) => { res = Some(json!({"step": i, "script": script, "error": e.to_string()})); break; }
         };
